@@ -2,39 +2,32 @@
    model, shortcuts.  Statements only; each is closed by `exact` of a lemma proved in proofs/.
 
    Model: models/SmtLibSolver.v (wrapper state machine `api_step`, strict solver `spec_step`,
-   reply pipe `sync_flags`), of pysmt/smtlib/solver.py AFTER the fixes C17 a-d (push/pop n
+   reply pipe `sync_flags`), of pysmt/smtlib/solver.py AFTER the fixes C17 a-f (push/pop n
    levels, get_model over all levels, reset_assertions resets the record, get-value consumes its
-   line).  Before them four clauses were refuted (see known_findings.json, status fixed); the
-   theorems below are now the full clauses, for EVERY history with
-     history_legal i d h = never pop below level 0 (push(n)/pop(n) with any n, reset_assertions,
-                           one-shot checks, get_model anywhere), exit (if any) last, and get_value
-                           queries mention only symbols of live assertions.
+   line, get_value gives undeclared symbols their model-completion default, a sort symbol is
+   declared once by its declaration).  Before them five clauses were refuted (known_findings.json,
+   status fixed); the theorems below are the FULL clauses, for EVERY history with
+     user_legal d h = never pop below level 0 (push(n)/pop(n) with any n, reset_assertions,
+                      one-shot checks, get_value of any term and get_model anywhere), exit last.
    Custom sorts of arity 0 are part of the model: declared_sorts is a second declared-set with its
    own level stack, and sorts and function symbols are separate name spaces in the wrapper and in
-   the strict solver (a number may name a sort and a symbol at once).
-   The last condition is what is left of the `_refuted` discipline: get_value does not declare
-   the symbols of its term (C17_stream_legal_refuted_value, open finding); without get_value
-   calls every user-legal history qualifies (C17_stream_legal_user). *)
+   the strict solver (a number may name a sort and a symbol at once).  Reading the abstract value
+   of a custom-sort symbol is not modelled (open finding custom-sort-value-unparsed). *)
 From Coq Require Import Bool List.
 From PySMT.models Require Import SmtLibSolver.
 From PySMT.proofs Require Import SmtLibSolver_proofs.
 Import ListNotations.
 
 (* ---- the command stream is legal SMT-LIB ---------------------------------------------- *)
-Theorem C17_stream_legal : forall decide h, history_legal ideal_init 0 h = true ->
+Theorem C17_stream_legal : forall decide h, user_legal 0 h = true ->
   accepted decide (stream h) = true /\ werr (final h) = false.
 Proof. exact stream_legal. Qed.
-Theorem C17_stream_legal_user : forall decide h, user_legal 0 h = true ->
-  forallb no_value_query h = true ->
-  accepted decide (stream h) = true /\ werr (final h) = false.
-Proof. exact stream_legal_user. Qed.
-(* the clause without the condition on get_value is refuted: *)
-Theorem C17_stream_legal_refuted :
-  exists h, user_legal 0 h = true /\ forall decide, legal_and_quiet decide h = false.
-Proof. exact stream_legal_refuted. Qed.
-Theorem C17_stream_legal_refuted_value : user_legal 0 value_witness = true /\
-  forall decide, accepted decide (stream value_witness) = false.
-Proof. exact stream_legal_refuted_value. Qed.
+(* a history that refuted the clause before fix e: get_value of symbols no assertion mentions *)
+Theorem C17_get_value_unasserted_symbol :
+  snd (run_api w_init value_witness) =
+    [CDeclare 0 None; CAssert X; CCheckSat; CGetValue []; CGetValue [0]] /\
+  forall decide, legal_and_quiet decide value_witness = true.
+Proof. exact value_witness_ok. Qed.
 (* an invariant of the strict solver for EVERY stream: live assertions only mention symbols in scope *)
 Theorem C17_spec_scoping : forall decide cs s, wf_levels s -> wf_levels (fst (spec_exec decide s cs)).
 Proof. exact spec_exec_wf. Qed.
@@ -50,7 +43,7 @@ Theorem C17_user_legal_exit_last : forall h d, user_legal d h = true -> exit_las
 Proof. exact user_legal_exit_last. Qed.
 
 (* ---- the verdict returned is the one the solver gave, about the assertions the user means - *)
-Theorem C17_verdict_faithful : forall decide h a, history_legal ideal_init 0 (h ++ [a]) = true ->
+Theorem C17_verdict_faithful : forall decide h a, user_legal 0 (h ++ [a]) = true ->
   let w := final h in
   let s := fst (spec_exec decide s_init (snd (run_api w_init h))) in
   let rs := snd (spec_exec decide s (snd (api_step w a))) in
@@ -58,7 +51,7 @@ Theorem C17_verdict_faithful : forall decide h a, history_legal ideal_init 0 (h 
   (a = ASolve -> verdict_of rs = Some (decide live_now)) /\
   (forall f, check_formula a = Some f -> verdict_of rs = Some (decide (f :: live_now))).
 Proof. exact verdict_faithful. Qed.
-Theorem C17_state_tracks_live_assertions : forall decide h, history_legal ideal_init 0 h = true ->
+Theorem C17_state_tracks_live_assertions : forall decide h, user_legal 0 h = true ->
   exists s', fst (spec_exec decide s_init (snd (run_api w_init h))) = s' /\
     Inv (final h) s' (ideal_run ideal_init h) (depth_run 0 h).
 Proof. exact state_tracks_ideal. Qed.
@@ -68,7 +61,7 @@ Theorem C17_shortcut_truth : forall (interp : Type) (holds : interp -> form -> b
     (decide : list form -> bool),
   (forall fs, decide fs = true <-> exists I, sat_by interp holds I fs) ->
   (forall I f, holds I (FNot f) = negb (holds I f)) ->
-  forall h a v, history_legal ideal_init 0 (h ++ [a]) = true ->
+  forall h a v, user_legal 0 (h ++ [a]) = true ->
     let w := final h in
     let s := fst (spec_exec decide s_init (snd (run_api w_init h))) in
     let rs := snd (spec_exec decide s (snd (api_step w a))) in
@@ -87,14 +80,13 @@ Theorem C17_shortcut_truth : forall (interp : Type) (holds : interp -> form -> b
 Proof. exact shortcut_truth. Qed.
 
 (* ---- after sat, the model covers every symbol of the live assertions, at every depth ----- *)
-Theorem C17_model_complete : forall h, history_legal ideal_init 0 h = true ->
+Theorem C17_model_complete : forall h, user_legal 0 h = true ->
   forall f x, In f (ideal_live (ideal_run ideal_init h)) -> In x (fvs f) ->
     In x (model_queries (final h)).
 Proof. exact (model_complete (fun _ => true)). Qed.
 
 Print Assumptions C17_stream_legal.
-Print Assumptions C17_stream_legal_user.
-Print Assumptions C17_stream_legal_refuted.
+Print Assumptions C17_get_value_unasserted_symbol.
 Print Assumptions C17_spec_scoping.
 Print Assumptions C17_replies_in_sync_iff.
 Print Assumptions C17_replies_in_sync.
